@@ -182,10 +182,12 @@ func parseTupleToUserset(graphBuilder *AuthorizationModelGraphBuilder, parentNod
 		directlyRelated = relationMetadata.GetDirectlyRelatedUserTypes()
 	}
 
+	typesWithRelation := typesDefiningRelation(model, computedRelation)
+
 	for _, relatedType := range directlyRelated {
 		tuplesetType := relatedType.GetType()
 
-		if !typeAndRelationExists(model, tuplesetType, computedRelation) {
+		if _, ok := typesWithRelation[tuplesetType]; !ok {
 			continue
 		}
 
@@ -302,17 +304,16 @@ func (g *AuthorizationModelGraphBuilder) hasEdge(from, to graph.Node, edgeType E
 	return false
 }
 
-func typeAndRelationExists(model *openfgav1.AuthorizationModel, typeName, relation string) bool {
-	typeDefs := model.GetTypeDefinitions()
-	// TODO this should be made faster, ideally typeDefs is a map
-	for _, typeDef := range typeDefs {
-		if typeDef.GetType() == typeName {
-			relations := typeDef.GetRelations()
-			if _, ok := relations[relation]; ok {
-				return true
-			}
+// typesDefiningRelation returns the names of the types that define the given relation, in one pass over the
+// type definitions, so that a tuple to userset costs one pass instead of one pass per directly related type.
+func typesDefiningRelation(model *openfgav1.AuthorizationModel, relation string) map[string]struct{} {
+	types := make(map[string]struct{})
+
+	for _, typeDef := range model.GetTypeDefinitions() {
+		if _, ok := typeDef.GetRelations()[relation]; ok {
+			types[typeDef.GetType()] = struct{}{}
 		}
 	}
 
-	return false
+	return types
 }
